@@ -5,7 +5,7 @@ import probes
 import vlib
 
 PROP = "C08"
-PARTS = ["raise", "position", "declare"]
+PARTS = ["raise", "position", "declare", "multi"]
 
 
 def explain(case, verdict, runs):
